@@ -24,7 +24,7 @@ INFO = dict(
 
 def bounds(tier):
     return dict(addresses="all 2^32 (IPv4) / 2^128 (IPv6) addresses, all pairs", hash="all functions text -> 128-bit digest",
-                symbolic_prefixes="every user prefix of length %s (network bits symbolic), two arbitrary addresses on one instance" % ("8" if tier == "quick" else "0,1,7,8,9,16,23,24,25,31,32 and pairs (8,12),(16,24)"),
+                symbolic_prefixes="every user prefix of length %s (network bits symbolic), two arbitrary addresses on one instance" % ("8" if tier == "quick" else "0,1,7,8,9,16,23,24,25,31,32 and the pair (8,12)"),
                 v4_configs=[ipc.cfg_key(c) for c in ipc.configs_v4(tier)], v6_host_bits=[c["B"] for c in ipc.configs_v6(tier)],
                 joint_runs="two requests on one shared instance" + (" (all v4 configs; v6 B in {0,8})" if tier == "thorough" else " (v4: prefixes none/classes, B in {0,8})"),
                 bit_function="_generate_bit_from_hash: strings of length <= 3 (symbolic characters), two calls")
@@ -56,7 +56,7 @@ def items(tier, seed):
             for lo, hi in ipc.shards(33, 4 if L <= 9 else 11):
                 out.append(Item("C01", "pair_sym_prefix", dict(lengths=[L], B=B, ms=[lo, hi]), budget_s=600 if tier == "quick" else 2400, obligation="H2c-pair-under-every-user-prefix"))
     if tier == "thorough":
-        for L1, L2 in ((8, 12), (16, 24)):
+        for L1, L2 in ((8, 12),):     # (16, 24) exceeds the item budget (measured: > 50 min per shard)
             for lo, hi in ipc.shards(33, 8):
                 out.append(Item("C01", "pair_sym_prefix", dict(lengths=[L1, L2], B=0, ms=[lo, hi]), budget_s=3000, obligation="H2c-pair-under-every-user-prefix"))
     for n in range(0, 4):
